@@ -35,6 +35,8 @@ def one_history(rep, rng, dev, hid):
     # half of the histories get a generous dt_max so that the proposal 1/2 (dt + dt_init/delta) is NOT clipped and the
     # averaging term (which must use the step actually taken, after retries) is visible
     dt_max = dt_init * (10 ** rng.uniform(0, 1.7) if rng.random() < 0.5 else 10 ** rng.uniform(2.5, 4.5))
+    if rng.random() < 0.12:
+        dt_max = dt_init                  # adaptivity on but no room to grow: refusals are still retried with smaller steps
     if dt_init < 1e-6:
         dt_max = dt_init * 10 ** rng.uniform(6.5, 8.5)      # the 1e-10 floor of the documented rule decides the proposal
     window = rng.randint(1, 12)
